@@ -2,6 +2,7 @@
 from __future__ import annotations
 
 import ast
+import os
 import functools
 from dataclasses import dataclass, field
 from pathlib import Path
@@ -135,6 +136,11 @@ class Repo:
             self.modules[name] = m
             self._index(m)
         self._subclasses = None
+        self.n_inlined = 0
+        if os.environ.get('VERIF_NO_INLINE') != '1':
+            # private helpers of the same module / class are expanded in place (sa/inline.py)
+            from .inline import expand_repo
+            self.n_inlined = expand_repo(self)
 
     # ------------------------------------------------------------------ indexing
     def _index(self, m: Module):
